@@ -31,9 +31,20 @@ NamesOK(e) ==
 StaleVersion(e, c) == "StaleRequeue" \in Deviations /\ "fresh_versions" \in DOMAIN e /\ e.eff[c] \in Rng(e.fresh_versions[c]) /\ e.eff[c].names # e.fresh[c].names
 ReloadOK(e) == \A c \in DOMAIN e.eff : e.eff[c] = e.fresh[c] \/ StaleVersion(e, c)
 
-Accept == Ev.k = "obs" => ((T.judgeNames => NamesOK(Ev)) /\ (T.judgeReload => ReloadOK(Ev)))
+\* C10 "at every moment": the name table after EVERY write of the controller (events "mid", between two observations of a settled history):
+\* every name resolves as it did at the observation before or as it does at the observation after - a name the cluster keeps is never
+\* unresolvable in between, a name of another cluster is never touched
+ObsBefore(i) == {j \in 1..(i - 1) : T.events[j].k = "obs"}
+ObsAfter(i) == {j \in (i + 1)..Len(T.events) : T.events[j].k = "obs"}
+Max(S) == CHOOSE x \in S : \A y \in S : y <= x
+Min(S) == CHOOSE x \in S : \A y \in S : x <= y
+OwnerAt(S, pick(_), h) == IF S = {} THEN "" ELSE Owner(T.events[pick(S)], h)
+MidOK(i) == LET e == T.events[i] IN
+            ObsAfter(i) # {} => \A h \in DOMAIN e.resolve : e.resolve[h] \in {OwnerAt(ObsBefore(i), Max, h), OwnerAt(ObsAfter(i), Min, h)}
+Accept == /\ Ev.k = "obs" => ((T.judgeNames => NamesOK(Ev)) /\ (T.judgeReload => ReloadOK(Ev)))
+          /\ (Ev.k = "mid" /\ T.judgeNames) => MidOK(l)
 Next == l <= Len(T.events) /\ Accept /\ l' = l + 1 /\ tr' = tr
 Spec == Init /\ [][Next]_vars
-Why == IF T.judgeNames /\ ~NamesOK(Ev) THEN "names" ELSE "reload"
+Why == IF Ev.k = "mid" THEN "mid" ELSE IF T.judgeNames /\ ~NamesOK(Ev) THEN "names" ELSE "reload"
 Judge == (l <= Len(T.events) /\ ~Accept) => PrintT(<<"REJECT", T.id, l, Why>>)
 =============================================================================
